@@ -590,8 +590,62 @@ def every_rules_file_kept(ctx):
            else "the lists of rules and data files are only extended (%d push/extend sites, no removal)" % n_push, fn=cr.fns[EX])
 
 
+def failed_values_only(ctx, cr):
+    """every check listed under a failed query-vs-query comparison did fail: binary_operation emits one FAIL InComparisonCheck per element
+    of the comparison's DIFFERENCE list (the left-hand values that were not matched), not per left-hand value — iterating `lhs` there lists
+    values that passed among the failures."""
+    from rules.c14 import const_of
+    from rules.c04 import receiver_field
+    from rules.c08 import def_of_local
+    rule = "R-C09-builder"
+    key = "rules::eval::binary_operation"
+    f = cr.fns.get(key)
+    if not f:
+        ctx.lost(rule, rule + ":binary-operation:failed-values", key)
+        return
+    dom = flow.dominators(f)
+    nexts = [bi for bi, t in M.iter_calls(f) if M.norm_path(t["fn"].get("decl", "")) == "std::iter::Iterator::next"]
+    loops = [(len(flow.natural_loop(f, h, dom)), h) for h in nexts]
+    found, bad = 0, []
+    for size, h in sorted(loops):
+        body = flow.natural_loop(f, h, dom)
+        inner = [h2 for s2, h2 in loops if h2 != h and h2 in body]
+        t = f["blocks"][h]["term"]
+        pl, src = M.op_place(t["args"][0]) if t["args"] else None, None
+        for _ in range(6):
+            if pl is None:
+                break
+            if not isinstance(pl, int):
+                pl = M.place_local(pl)
+                continue
+            d = def_of_local(f, pl)
+            if not d:
+                break
+            if d[0] == "call":
+                src = receiver_field(cr, f, d[2]["args"][0]) if d[2]["args"] else None
+                break
+            rv = d[2]["rv"]
+            pl = rv["p"] if rv["r"] == "ref" else M.op_place(rv.get("o", {}))
+        if src not in ("diff", "lhs", "rhs"):
+            continue        # not a loop over a field of a QueryIn / ListIn comparison
+        statuses = set()
+        for bi, si, st in M.iter_stmts(f):
+            rv = st.get("rv")
+            if bi in body and not any(bi in flow.natural_loop(f, h2, dom) for h2 in inner) and rv and rv.get("r") == "agg" and str(rv.get("adt", "")).endswith("InComparisonCheck"):
+                fl = [x["name"] for x in cr.adts[rv["adt"]]["variants"][0]["fields"]]
+                c = const_of(f, rv["ops"][fl.index("status")])
+                statuses.add(c[1] if c else "?")
+        if "Status::FAIL" in statuses:
+            found += 1
+            if src != "diff":
+                bad.append("FAIL checks are emitted per element of `%s` (l.%s)" % (src, t.get("ln")))
+    ctx.ob(rule, rule + ":binary-operation:failed-values", found >= 1 and not bad, "; ".join(bad) + ": values that matched are listed among the failed checks" if bad
+           else "%d loop(s) emitting FAIL checks, each over the comparison's difference list" % found, fn=f)
+
+
 def run(ctx):
     cr = ctx.lib
+    failed_values_only(ctx, cr)
     partition(ctx, cr)
     builder(ctx, cr)
     every_rules_file_kept(ctx)
